@@ -73,6 +73,17 @@ def gen_doc(rng, variant=None):
                                                           {'k': 'component', 'name': 'Inner', 'req': False, 'parts': []}]}]
         doc['messages'] = [{'name': 'M1', 'msgtype': 'U1', 'parts': [{'k': 'component', 'name': 'Outer', 'req': True, 'parts': []},
                                                                        {'k': 'field', 'name': 'F3', 'req': False, 'parts': []}]}]
+    elif isinstance(variant, tuple) and variant[0] == 'shared_prefix':
+        # two components that start with the same sub-component and go on differently; a group holding one of them
+        k = variant[1]
+        F_ = lambda n, req=False: {'k': 'field', 'name': n, 'req': req, 'parts': []}
+        C_ = lambda n, req=True: {'k': 'component', 'name': n, 'req': req, 'parts': []}
+        doc['components'] = [{'name': 'Inner', 'parts': [F_('F%d' % i, i % 2 == 1) for i in range(1, k + 1)]},
+                             {'name': 'OuterX', 'parts': [C_('Inner'), F_('F10', True)]},
+                             {'name': 'OuterY', 'parts': [C_('Inner'), F_('F9' if k < 9 else 'F10')]}]
+        doc['messages'] = [{'name': 'M1', 'msgtype': 'U1', 'parts': [C_('OuterX')]},
+                           {'name': 'M2', 'msgtype': 'U2', 'parts': [C_('OuterY', False)]},
+                           {'name': 'M3', 'msgtype': 'U3', 'parts': [{'k': 'group', 'name': 'G1', 'req': True, 'parts': [C_('OuterX')]}]}]
     return doc
 
 
@@ -92,12 +103,13 @@ def run(ctx):
                       'fieldnums': [f['num'] for f in doc['fields']]})
     variants = [None] * (40 if quick else 400) + ['dangling_field', 'dangling_component', 'dangling_in_component', 'dangling_group',
                                                    'dangling_unused_component', 'optional_inner_required_field'] * (2 if quick else 10)
+    variants += [('shared_prefix', k) for k in range(1, 10)]
     gen_docs = []
     for v in variants:
         doc = gen_doc(rng, v)
         docs.append(doc)
         gen_docs.append(len(docs))
-        cases.append({'doc': len(docs), 'xml': xmlwalk.render(doc), 'label': 'gen:%s' % v, 'msgtypes': [m['msgtype'] for m in doc['messages']],
+        cases.append({'doc': len(docs), 'xml': xmlwalk.render(doc), 'label': 'gen:%s' % ('%s_%d' % v if isinstance(v, tuple) else v), 'msgtypes': [m['msgtype'] for m in doc['messages']],
                       'fieldnums': [f['num'] for f in doc['fields']]})
     cp = os.path.join(ctx.scratch, 'cases.ndjson')
     common.ndjson_write(cp, cases)
